@@ -55,6 +55,22 @@ def run_unit(u, tier, workdir, prop):
         return R.decide_verus_unit(u, tier, os.path.join(workdir, u["name"]))
     if u["backend"] == "kani":
         return K.decide_kani_unit(u, tier, os.path.join(workdir, u["name"]), prop)
+    if u["backend"] == "witness":
+        # BOUNDED stand-in only: an executable postcondition searched over a stated grid on the real code (never counted as proved)
+        from . import witness as W
+        w = W.run_witness(u, int(os.environ.get("VERIF_SEED", "0") or 0))
+        if w is None:
+            raise R.Infra(f"{u['name']}: witness unit without witness.rs / witness_target")
+        ok = not w["fails"]
+        res = {"unit": u["name"], "backend": "witness", "cmd": w["cmd"], "wall": 0.0, "smt_ms": 0, "assumed": u.get("assumed", []), "dropped": [], "rule_uses": {},
+               "obligations": [{"name": f"{u['name']}/witness-search", "backend": "cargo test (executable postcondition on the real code)", "ok": ok, "us": 0,
+                                "bounded": u.get("witness_bound", f"{w['cases']} cases"), "kind": "bounded"}],
+               "failures": [], "functions_under_contract": u.get("functions", []), "canary": {"cases": w["cases"]}, "assumption_scan": {}, "items": [u["witness_target"]]}
+        if not ok:
+            f0 = w["fails"][0]
+            res["failures"].append({"obligation": f"{u['name']}/{f0.get('fn', '?')}", "clause": f0.get("clause", ""), "msg": "bounded search on the real code found a failing input",
+                                    "raw": json.dumps(w["fails"][:5]), "unit": u["name"], "fn": f0.get("fn"), "input": {"failing_inputs": w["fails"][:5], "cases_tried": w["cases"]}})
+        return res
     raise R.Infra(f"unknown backend {u['backend']}")
 
 
@@ -67,7 +83,7 @@ def decide(prop, tier, seed):
     workdir = os.path.join(R.WORK, prop)
     os.makedirs(workdir, exist_ok=True)
     results = []
-    verus_units = [u for u in units if u["backend"] == "verus"]
+    verus_units = [u for u in units if u["backend"] in ("verus", "witness")]
     kani_units = [u for u in units if u["backend"] == "kani"]
     with cf.ThreadPoolExecutor(max_workers=6) as ex:
         futs = {ex.submit(run_unit, u, tier, workdir, prop): u for u in verus_units}
